@@ -637,7 +637,7 @@ const ONESHOTRUN_MAX_N: usize = 70000;
 
 struct OsCase { q: i32, lgwin: i32, n: usize, kind: u32, gen: Option<u64>, dense: bool }
 
-fn oneshot_case(c: &OsCase, seed: u64, idx: usize, lines: &mut Vec<(String, String)>, rep: &mut Report) {
+fn oneshot_case(c: &OsCase, seed: u64, idx: usize, thorough: bool, lines: &mut Vec<(String, String)>, rep: &mut Report) {
     let mut rng = Rng::new(seed ^ 0x05c8 ^ ((idx as u64) << 20));
     let input = match c.gen { Some(g) => gen_bytes(c.n, g), None => content(c.kind, c.n, &mut rng) };
     let n = input.len();
@@ -718,7 +718,10 @@ fn oneshot_case(c: &OsCase, seed: u64, idx: usize, lines: &mut Vec<(String, Stri
             // the same call over the run-level stream model (`BV.Stream.oneshotRun`): the recorded
             // payload-encoder answers of the stream phase are replayed, everything else — the stream
             // machine, `total_out`, the fallback decision — is the model's (theorem `oneshot_run_contract`)
-            if api == "rust" && n <= ONESHOTRUN_MAX_N && kind != "other" && (n <= 4096 || (cap + idx) % 10 == 0 || cap == bound || cap + 1 == bound) {
+            // quick tier: every small case, a third of the mid-sized ones, and of the large ones the two buffer
+            // sizes around the bound on every fourth case; thorough: everything up to ONESHOTRUN_MAX_N
+            let dense_enough = thorough || n <= 1000 || (n <= 4096 && (cap + idx) % 3 == 0) || (idx % 4 == 0 && (cap == bound || cap + 1 == bound));
+            if api == "rust" && n <= ONESHOTRUN_MAX_N && kind != "other" && dense_enough {
                 let evs = LAST_ONESHOT_EVENTS.with(|x| core::mem::take(&mut *x.borrow_mut()));
                 if evs.len() <= 2000 {
                     if let Some(tok) = answers_token(&evs) {
@@ -909,7 +912,7 @@ fn run_c08(args: &Args, corr: &mut Corr, rep: &mut Report) {
     let res = par_tasks(ncases, move |i| {
         let mut lines = vec![];
         let mut rep = Report::default();
-        oneshot_case(&cases[i], seed, i, &mut lines, &mut rep);
+        oneshot_case(&cases[i], seed, i, thorough, &mut lines, &mut rep);
         (lines, rep)
     });
     for (lines, r) in res { for (a, bb) in lines { corr.case(&a, &bb); } merge_rep(rep, r); }
@@ -1013,6 +1016,7 @@ fn run_c08(args: &Args, corr: &mut Corr, rep: &mut Report) {
                 for (j, &n) in rns.iter().enumerate() {
                     idx += 1;
                     if !thorough && n > 3 && (j + q as usize + flags as usize) % 4 != 0 { continue; }
+                    if !thorough && n > 3 && (idx / 4) % 3 != 0 { continue; }
                     if q >= 10 && n > 70000 && !thorough { continue; }
                     let hint = rhints[(j + flags as usize) % 3];
                     let chunk = match idx % 3 { 0 => usize::MAX / 2, 1 => 1000, _ => 20000 };
